@@ -22,7 +22,7 @@ func init() {
 			"C03.3 authenticateRequest returns hasAuth=true on exactly one return, dominated by: MESSAGE-INTEGRITY present, AuthHandler!=nil, NONCE decoded, req.NonceHash.Validate(that nonce)==nil, realm and username decoded, AuthHandler(username, realm of the message) ok, MessageIntegrity(key of that handler call).Check(stunMsg)==nil; the returned key and user are that call's results; every other return has hasAuth=false; " +
 			"C03.4 in the five non-Allocate handlers every state effect is dominated by a non-nil result of GetAllocationForUserID(request tuple, user) / GetTCPConnection(user, id) with user = result #2 of authenticateRequest, and those lookups return non-nil only on the userID equality edge; " +
 			"C03.5 challenge and validation use the same req.NonceHash, which is only assigned from Server.nonceHash; the challenge realm is req.Realm; " +
-			"C03.6 every NonceManager.Validate returns nil only on the true edge of hmac.Equal over a MAC keyed by the instance key and bytes of the presented nonce, and under an expiry comparison involving time.Now and the nonce; C03.6d the bytes fed to that HMAC are the byte range the timestamp is decoded from (or the low-order bytes of its encoding), in Generate, Validate and their helpers.",
+			"C03.6 every NonceManager.Validate returns nil only on the true edge of hmac.Equal over a MAC keyed by the instance key and bytes of the presented nonce, and under an expiry comparison involving time.Now and the nonce; C03.6d the bytes fed to that HMAC are the byte range the timestamp is decoded from (or the low-order bytes of its encoding), in Generate, Validate and their helpers; C03.6e the MAC a validator computes is written into storage of its own (hash.Sum(nil) or a fresh buffer), never appended onto a slice of the presented nonce — Sum(b) appends, and in place when b has room, which would make the comparison compare the nonce with itself.",
 		NotCovered: "strength of HMAC/MD5; the numeric value of the one-hour threshold beyond the comparison being present; what the operator's AuthHandler returns; interleavings.",
 		Run:        runC03,
 	})
@@ -130,6 +130,7 @@ func runC03(c *Ctx) {
 	ruleChallenge(c, "C03.5")
 	ruleNonceValidators(c, "C03.6")
 	ruleMACCoversTimestamp(c, "C03.6d")
+	ruleMACNotAliased(c, "C03.6e")
 	// a request by another user must leave the owner's pending connection untouched
 	ruleSingleUseOwner(c, "C03.7")
 }
@@ -1629,4 +1630,76 @@ func secondsPerUnit(w *World, v ssa.Value, depth int) float64 {
 		}
 	}
 	return 0
+}
+
+// ruleMACNotAliased (C03.6e): hash.Sum(b) APPENDS the digest to b and returns the result; when
+// b has spare capacity the digest is written in place. A validator that calls Sum on a slice
+// of the presented nonce (nonce[:4], whose capacity is the whole nonce) overwrites the
+// presented MAC with the expected one and then compares the buffer with itself: every forged
+// nonce with a current timestamp validates. So: in the validators and the helpers they use,
+// the argument of Sum is nil or storage made for this call.
+func ruleMACNotAliased(c *Ctx, rule string) {
+	w := c.W
+	c.Rule(rule, "the expected MAC does not alias the presented nonce: every hash.Hash.Sum(b) reachable from (*NonceHash).Validate / (*ShortNonceHash).Validate has b nil or fresh — through helper parameters at the call sites reached from the validator", 2)
+	for _, tn := range []string{"NonceHash", "ShortNonceHash"} {
+		val := w.Func("server", tn, "Validate")
+		c.Anchor(rule, tn+".Validate")
+		scope := map[*ssa.Function]bool{}
+		for _, f := range w.reachableHelpers(val) {
+			scope[f] = true
+		}
+		var ok func(v ssa.Value, at *ssa.Function, d int) bool
+		ok = func(v ssa.Value, at *ssa.Function, d int) bool {
+			rv := stripIface(w.resolveLoad(v))
+			if isNilConst(rv) || w.freshBytes(rv, 0) {
+				return true
+			}
+			if sl, isS := rv.(*ssa.Slice); isS {
+				// a slice of fresh storage is this call's own too
+				return ok(sl.X, at, d+1)
+			}
+			if al, isAl := rv.(*ssa.Alloc); isAl {
+				_ = al
+				return true // a local array
+			}
+			p, isP := rv.(*ssa.Parameter)
+			if !isP || d > 3 || p.Parent() == val {
+				return false
+			}
+			n := 0
+			for _, cs := range w.callsTo(p.Parent()) {
+				if !scope[cs.Parent()] {
+					continue
+				}
+				n++
+				i := paramIndex(p)
+				if i < 0 || i >= len(cs.Common().Args) || !ok(cs.Common().Args[i], cs.Parent(), d+1) {
+					return false
+				}
+			}
+			return n > 0
+		}
+		nSum := 0
+		bad := ""
+		for _, f := range sortedFns(scope) {
+			w.eachInstr(f, func(in ssa.Instruction) {
+				call, isC := in.(*ssa.Call)
+				if !isC || !call.Call.IsInvoke() || call.Call.Method.Name() != "Sum" || len(call.Call.Args) != 1 {
+					return
+				}
+				nSum++
+				if !ok(call.Call.Args[0], f, 0) {
+					bad = w.instrPos(in) + " (" + w.desc(call.Call.Args[0]) + ")"
+				}
+			})
+		}
+		switch {
+		case nSum == 0:
+			c.Bad(rule, fname(val), "Sum argument", w.pos(val.Pos()), "no hash.Sum reachable from the validator: anchor gone")
+		case bad != "":
+			c.Bad(rule, fname(val), "Sum argument", w.pos(val.Pos()), "the expected MAC is appended onto bytes of the presented nonce at "+bad+": Sum writes in place when the slice has room (nonce[:4] has the whole nonce as capacity), the presented MAC is overwritten by the expected one and hmac.Equal compares the buffer with itself — a forged nonce validates")
+		default:
+			c.OK(rule, fname(val), "Sum argument", w.pos(val.Pos()), fmt.Sprintf("%d Sum call(s), each into nil or fresh storage", nSum))
+		}
+	}
 }
